@@ -135,28 +135,36 @@ theorem scanLoop_eq_naiveFrom (finder : Nat → Bool × Nat) (after : Nat → Na
       have hf := hF pos hpos
       cases hb : (finder pos).1 with
       | false =>
-        -- no candidate: everything ahead fails
-        have hall : ∀ p, p ∈ scanOrder rtl n pos → attempt p = none := by
+        -- no candidate up to and including q = (finder pos).2
+        have hqn : (finder pos).2 ≤ n := by
+          cases rtl <;> simp at hf <;> omega
+        have hrange : ∀ p, (if rtl then (finder pos).2 ≤ p ∧ p ≤ pos else pos ≤ p ∧ p ≤ (finder pos).2) → attempt p = none := by
           intro p hp
-          rw [mem_scanOrder] at hp
           cases rtl
           · simp only [Bool.false_eq_true, if_false] at hf hp
             exact hf.2.2.2 hb p hp.1 hp.2
           · simp only [if_true] at hf hp
-            exact hf.2.2 hb p hp
-        rw [naiveFrom_eq_none attempt rtl n pos hall]
+            exact hf.2.2 hb p hp.1 hp.2
         simp only [Bool.false_eq_true, if_false]
         by_cases hq : (finder pos).2 = stopPos rtl n
         · rw [if_pos hq]
+          symm
+          apply naiveFrom_eq_none
+          intro p hp
+          rw [mem_scanOrder] at hp
+          apply hrange
+          cases rtl <;> simp [stopPos] at hq hp ⊢ <;> omega
         · rw [if_neg hq]
           have hq' : bump rtl (finder pos).2 ≤ n ∧ dist rtl n (bump rtl (finder pos).2) < fuel := by
             cases rtl <;> simp [bump, dist, stopPos] at hf hq hfuel ⊢ <;> omega
           rw [ih _ hq'.1 hq'.2]
-          apply naiveFrom_eq_none
-          intro p hp
-          apply hall
-          rw [mem_scanOrder] at hp ⊢
-          cases rtl <;> simp [bump] at hf hp ⊢ <;> omega
+          symm
+          apply naiveFrom_skip attempt rtl n
+            (if rtl then pos - bump rtl (finder pos).2 else bump rtl (finder pos).2 - pos) pos _ hpos hq'.1
+          · cases rtl <;> simp [bump, stopPos] at hf hq ⊢ <;> omega
+          · intro p hp
+            apply hrange
+            cases rtl <;> simp [bump, stopPos] at hf hq hp ⊢ <;> omega
       | true =>
         simp only [if_true]
         -- skip to the candidate q
